@@ -94,6 +94,12 @@ CLAIMED = {
         note='Outside: the fast-forward count and edge bookkeeping of _read_port, whole-tape loads, fast_load vs the ROM routine, the C read_port/advance_tape, pause/first-edge options. Assumes an absolute jump closing a loop targets the signature start; '
              'wildcard bytes fixed to 0 (they are never executed on a trip round the loop).',
         design='4 (C13)', technique=TECH + '; induction over the loop counter; Engine B for the C handler', engine='symx+llsym'),
+    'C10': dict(
+        text='The state a later instruction can read (all 30 register slots, T over a frame, border, FE, 7FFD, FFFD, 16 AY registers, RAM cells) is symbolic in a real simulator + tracer; the real get_state -> write_snapshot (Z80, SZX) -> Snapshot.get -> '
+             'get_registers chain (as from_snapshot uses it) runs on it and z3 decides component-wise that the restored state equals the saved one (SZX incl. MEMPTR, Z80 except MEMPTR) for 48K/128K/+2. With instruction determinism (C05/C06) this gives transparency at every split point.',
+        note='Known finding: the HALT flag is not saved (6 entries, one per format x machine). Outside: trace.run option handling and the trace loop (its next-interrupt time is recomputed from T on entry), SNA, construction of the C simulator object. '
+             '3 RAM cells symbolic, the rest zero.',
+        design='4 (C10)', technique=TECH),
 }
 NOT_APPLICABLE = {
     'C16': 'HTML link/anchor consistency is a property of generated document structure (which files and id= strings exist); there is no bounded arithmetic/data path to make symbolic - a solver encoding would be a copy of the writer (DESIGN.md section 5).',
